@@ -188,6 +188,7 @@ def bombs(ctx, res):
                 res.violations.append(vlib.Violation("wide tree of distinct sub-trees: wrong result", inp, observed=str(rc_)))
         res.coverage_extra["linear_time_distinct_seconds"] = {str(k): round(v, 2) for k, v in tmd.items()}
         SP.wide_cases(eng, res, S.HIST_KEYS, "saturation", True, rng0)
+        SP.tiny_cases(eng, res, S.HIST_KEYS, "saturation", rng0)        # incl. gitlinks that carry the id of a tree of the same repository
         # one sub-tree named k times with totals at and next to floor(capacity / k): products that land exactly on, just below
         # and just above 2^64-1 (bytes) and 2^32-1 (files), for k = 2..10 — whether k additions or one multiplication are used
         C64, C32_ = 2**64 - 1, 2**32 - 1
